@@ -99,7 +99,7 @@ package expressions
 //@ func (*CompiledKeyBuilder).optimize
 //@   modifies world except KeyBuilder
 //@   ensures result != nil
-//@   ghostset at "sb.WriteString(constVal)" : opt_in(ret) := old(opt_in(ret)) + constVal
+//@   ghostset at "sb.WriteString(constVal)" : opt_in(ret) := old(opt_in(ret)) + app(stage, any_ctx)
 //@   ghostset at "ret.stages = append(ret.stages, stageLiteral(sb.String()))"#1 : opt_out(ret) := old(opt_out(ret)) + sb_content(addrof(sb))
 //@   ghostset at "ret.stages = append(ret.stages, stage)" : opt_out(ret) := old(opt_out(ret)) + app(stage, any_ctx)
 //@   ghostset at "ret.stages = append(ret.stages, stage)" : opt_in(ret) := old(opt_in(ret)) + app(stage, any_ctx)
